@@ -1,0 +1,35 @@
+//go:build verif
+
+package node
+
+import (
+	"github.com/youzan/ZanRedisDB/common"
+)
+
+// Accessors for the verification harness (/verif, group Valid, property C11). Built only with
+// -tags verif; read-only.
+
+// VerifCmdRegs lists the redis API commands registered on this node (read, write, merge tables).
+func (nd *KVNode) VerifCmdRegs() []common.VerifReg {
+	return nd.router.VerifRegs()
+}
+
+// VerifSMCmdRegs lists the apply-side handlers registered in a kv state machine.
+func VerifSMCmdRegs(sm StateMachine) []common.VerifReg {
+	if k, ok := sm.(*kvStoreSM); ok {
+		return k.router.VerifRegs()
+	}
+	return nil
+}
+
+// VerifAllCmdRegs runs the two production registration functions (registerHandler of a data
+// node, registerHandlers of a kv state machine) on bare objects and lists what they registered.
+// The registered closures are not called.
+func VerifAllCmdRegs() []common.VerifReg {
+	mc := MachineConfig{}
+	nd := &KVNode{router: common.NewCmdRouter(), machineConfig: &mc}
+	nd.registerHandler()
+	sm := &kvStoreSM{router: common.NewSMCmdRouter()}
+	sm.registerHandlers()
+	return append(nd.router.VerifRegs(), sm.router.VerifRegs()...)
+}
